@@ -34,6 +34,7 @@
 -/
 import Lemmas.SoftReset
 import Lemmas.SoftResetIn
+import Lemmas.SoftResetWorld
 import Props.C03
 namespace C15
 open BestPath World SoftReset SoftResetIn
@@ -367,5 +368,132 @@ example : ListsWF g0 tE [[r1, r2], [r2]] := by
     simp only [List.mem_cons, List.not_mem_nil, or_false] at hl hl'
     rcases hl with rfl | rfl <;> rcases hl' with rfl | rfl <;>
       (simp at hb ho; subst hb; subst ho; decide)
+
+
+/-! ## the whole speaker (all destinations, all peers at once)
+
+  Model/SoftResetWorld.lean: the speaker as a product of its components — peers (configuration,
+  session state) × destinations (Loc-RIB path list, accepted Adj-RIB-In content, what every peer
+  holds) — every event defined by mapping the per-destination / per-peer functions the theorems
+  above are about (`calcStep`, `deltaForP`/`heldApplyP`, `softOutFor`) over the components. The
+  driver runs this model in lockstep with the association-list model `SoftReset.S` and answers an
+  ask only when both agree, so it is compared with the real BgpServer on every run.
+
+  Hypotheses, all explicit: the peers have pairwise different indices and addresses and none is a
+  route-server client (`CfgWF`); always-compare-med (with the mandatory ORIGIN of every announced
+  route, `OpOK`, this IS "MED comparable throughout": `pairWF_of_good`); and no two different
+  paths of one destination tie in the whole decision process in the FRESH speaker's final
+  Loc-RIB (`hties`). The last one cannot be discharged by the deterministic tie-break: that ends
+  at the neighbour address, so two routes of ONE neighbour (ADD-PATH receive) can tie completely,
+  and then their order is the arrival order, which a replay does not reproduce
+  (`ties_counterexample`); it follows from "one route per neighbour" (`distinct_addr_keys`). -/
+
+open SoftResetWorld in
+/-- **C15_soft_reset_equals_fresh_world.** For EVERY history `ops` of the whole speaker — session
+    up / down, announcements and withdrawals from any peer for any destination, import and export
+    policy changes, soft resets in / out / both of single peers or all, ROUTE-REFRESH, in any
+    order — followed by a soft reset in + out of all peers: the Loc-RIB path list of EVERY
+    destination (order, hence best path, included) and what EVERY established peer holds for it
+    equal those of the fresh speaker that received the same route events (`ops.filter isRoute`)
+    with the final import and export policies in force from the start. -/
+theorem C15_soft_reset_equals_fresh_world (g : Global) (opts : Opts) (cfgs : List PeerCfg)
+    (p0i p0e : Pol) (ops : List SOp) (hcfg : CfgWF (init g opts cfgs p0i p0e).k)
+    (halw : opts.alwaysCompareMed = true) (hops : ∀ op ∈ ops, OpOK op)
+    (hties : ∀ d, ((SoftResetWorld.run (init g opts cfgs
+        (SoftResetWorld.run (init g opts cfgs p0i p0e) ops).k.imp
+        (SoftResetWorld.run (init g opts cfgs p0i p0e) ops).k.exp) (ops.filter isRoute)).d d).rib.Pairwise
+          (fun a b => key opts a ≠ key opts b)) :
+    let sa := SoftResetWorld.run (init g opts cfgs p0i p0e) ops
+    let s1 := SoftResetWorld.softBothAll sa
+    let s2 := SoftResetWorld.run (init g opts cfgs sa.k.imp sa.k.exp) (ops.filter isRoute)
+    ∀ d, (s1.d d).rib = (s2.d d).rib ∧
+      ∀ i t, sa.k.cfg? i = some t → sa.k.up i = true → (s1.d d).held i = (s2.d d).held i :=
+  world_soft_equals_fresh g opts cfgs p0i p0e ops hcfg halw hops hties
+
+open SoftResetWorld in
+/-- **C15_reset_idempotent_world.** A second soft reset in + out of all peers changes no Loc-RIB
+    and nothing any established peer holds. (The second soft reset OUT does send the
+    announcements again — it is a refresh — they are what the peers hold; that the second soft
+    reset IN hands the peers nothing is the per-destination `soft_in_idempotent` + `getChanges`
+    on an unchanged list, not restated here.) -/
+theorem C15_reset_idempotent_world (g : Global) (opts : Opts) (cfgs : List PeerCfg)
+    (p0i p0e : Pol) (ops : List SOp) (hcfg : CfgWF (init g opts cfgs p0i p0e).k)
+    (halw : opts.alwaysCompareMed = true) (hops : ∀ op ∈ ops, OpOK op)
+    (hties : ∀ d, ((SoftResetWorld.run (init g opts cfgs
+        (SoftResetWorld.run (init g opts cfgs p0i p0e) ops).k.imp
+        (SoftResetWorld.run (init g opts cfgs p0i p0e) ops).k.exp) (ops.filter isRoute)).d d).rib.Pairwise
+          (fun a b => key opts a ≠ key opts b)) :
+    let sa := SoftResetWorld.run (init g opts cfgs p0i p0e) ops
+    let s1 := SoftResetWorld.softBothAll sa
+    ∀ d, ((SoftResetWorld.softBothAll s1).d d).rib = (s1.d d).rib ∧
+      ∀ i t, sa.k.cfg? i = some t → sa.k.up i = true →
+        ((SoftResetWorld.softBothAll s1).d d).held i = (s1.d d).held i :=
+  world_reset_idempotent g opts cfgs p0i p0e ops hcfg halw hops hties
+
+open SoftResetWorld in
+/-- **C15_soft_out_peer_world.** Soft reset out (or ROUTE-REFRESH) of ONE peer after any history:
+    for every destination the peer holds exactly the export of the CURRENT best path under the
+    current export policy, and no Loc-RIB changes — no hypothesis on MED or ties. -/
+theorem C15_soft_out_peer_world (g : Global) (opts : Opts) (cfgs : List PeerCfg) (p0i p0e : Pol)
+    (ops : List SOp) (hcfg : CfgWF (init g opts cfgs p0i p0e).k) (hops : ∀ op ∈ ops, OpOK op)
+    (i : Nat) (t : PeerCfg) :
+    let sa := SoftResetWorld.run (init g opts cfgs p0i p0e) ops
+    sa.k.cfg? i = some t → sa.k.up i = true →
+    ∀ d, ((SoftResetWorld.softOut sa i).d d).held i =
+        wantOfP sa.k.g sa.k.exp t ((SoftResetWorld.softOut sa i).d d).rib ∧
+      ((SoftResetWorld.softOut sa i).d d).rib = (sa.d d).rib :=
+  world_soft_out_peer g opts cfgs p0i p0e ops hcfg hops i t
+
+/-- why `hties` is a hypothesis: two routes of ONE neighbour (path-ids 1 and 2) that tie in every
+    step of the decision process are ordered by arrival -/
+def tieA : Cand := { r1 with pathId := 1, marker := 7, comms := [] }
+def tieB : Cand := { r1 with pathId := 2, marker := 8, comms := [] }
+theorem ties_counterexample :
+    BestPath.run ⟨true, false, false⟩ [.ann tieA, .ann tieB] ≠
+      BestPath.run ⟨true, false, false⟩ [.ann tieB, .ann tieA] := by decide
+
+/-! ### non-vacuity of the whole-speaker theorems: 2 peers × 2 destinations -/
+
+namespace WorldExample
+open SoftResetWorld
+
+def o1 : Opts := ⟨true, false, false⟩
+def cfgs : List PeerCfg := [src1, src2]
+def a0 : Cand := { (default : Cand) with pfx := 0, marker := 1, origin := some 0, segs := [⟨2, [65002]⟩], comms := [tag] }
+def a1 : Cand := { (default : Cand) with pfx := 1, marker := 2, origin := some 0, segs := [⟨2, [65002, 300]⟩] }
+def b0 : Cand := { (default : Cand) with pfx := 0, marker := 3, origin := some 0, segs := [⟨2, [65003, 300]⟩] }
+/-- reject 65533:1 on import -/
+def impNew : Pol := { stmts := [{ commSet := some [tag], route := 2 }] }
+/-- add 65532:1 on export -/
+def expNew : Pol := { stmts := [{ addComm := some 4294705153 }] }
+/-- both sessions up, routes for two destinations from two peers, then both policies change -/
+def ops : List SOp :=
+  [.up 1, .up 2, .ann 1 a0, .ann 1 a1, .ann 2 b0, .setImp impNew, .setExp expNew]
+
+example : CfgWF (init g0 o1 cfgs {} {}).k := ⟨by decide, by decide, by decide⟩
+example : ∀ op ∈ ops, OpOK op := by
+  intro op h
+  simp only [ops, List.mem_cons, List.not_mem_nil, or_false] at h
+  rcases h with rfl | rfl | rfl | rfl | rfl | rfl | rfl <;> first | trivial | decide
+
+/-- before the reset destination 0 still holds peer 1's route, which the new import policy
+    rejects, best first -/
+example : ((SoftResetWorld.run (init g0 o1 cfgs {} {}) ops).d 0).rib.map (·.marker) = [1, 3] := by decide
+/-- after the reset it is gone, as in the fresh speaker -/
+example : ((softBothAll (SoftResetWorld.run (init g0 o1 cfgs {} {}) ops)).d 0).rib.map (·.marker) = [3] := by
+  decide
+example : ((SoftResetWorld.run (init g0 o1 cfgs impNew expNew) (ops.filter isRoute)).d 0).rib.map (·.marker) = [3] := by
+  decide
+/-- destination 1 is untouched, and peer 2 (index 2) is told peer 1's route with the community the
+    new export policy adds — in both speakers -/
+example : (((softBothAll (SoftResetWorld.run (init g0 o1 cfgs {} {}) ops)).d 1).held 2).map (·.comms) =
+    some [4294705153] := by decide
+example : (((SoftResetWorld.run (init g0 o1 cfgs impNew expNew) (ops.filter isRoute)).d 1).held 2).map (·.comms) =
+    some [4294705153] := by decide
+/-- no ties in the fresh speaker's Loc-RIBs (destinations 0 and 1 hold one path each) -/
+example : ((SoftResetWorld.run (init g0 o1 cfgs impNew expNew) (ops.filter isRoute)).d 0).rib.Pairwise
+    (fun a b => key o1 a ≠ key o1 b) := by decide
+
+end WorldExample
 
 end C15
